@@ -90,7 +90,7 @@ def gen_cfg(depth, **over):
     return "SPECIFICATION GenSpec\n" + render(c) + "INVARIANT Export\nCHECK_DEADLOCK FALSE\n"
 
 
-def trace_cfg(invs, mods, flags, conns=6):
+def trace_cfg(invs, mods, flags, conns=16):
     return ("SPECIFICATION TraceSpec\nCONSTANTS\n  Conns = %s\n  Mods = %s\n  Flags = %s\n" % (
         cfg_set(list(range(1, conns + 1))), cfg_set(mods), cfg_set(flags)) +
         "INVARIANTS " + " ".join(invs) + "\nCHECK_DEADLOCK FALSE\nPOSTCONDITION TraceAccepted\n")
